@@ -77,3 +77,7 @@ Theorem C16_restore_wraps_refuted :
                         wf_b (run clip cleardef (init_cat 1 true) restore_witness) = false.
 Proof. intros [|] [|]; vm_compute; split; reflexivity. Qed.
 Print Assumptions C16_restore_wraps_refuted.
+
+(* with group starts clamped to models.MinNanoTime (props/C16/fix2.patch) the same sequence survives the restore *)
+Example C16_clamped_restore_ok : forall clip cleardef, wf_b (run clip cleardef (init_cat_v 1 true true) restore_witness) = true.
+Proof. intros [|] [|]; vm_compute; reflexivity. Qed.
